@@ -91,19 +91,24 @@ pub struct Fail {
     /// a smaller case (in the sub-check's replay format) that fails the same way, when the
     /// check itself can name one (e.g. one element of an enumerated row)
     pub minimal: Option<Value>,
+    /// name of the sub-check whose replay format `minimal` uses (default: the failing one)
+    pub minimal_sub: Option<&'static str>,
 }
 
 impl Fail {
     pub fn new(key: impl Into<String>, msg: impl Into<String>) -> Self {
-        Fail { key: key.into(), msg: msg.into(), minimal: None }
+        Fail { key: key.into(), msg: msg.into(), minimal: None, minimal_sub: None }
     }
     pub fn with_minimal(mut self, v: Value) -> Self {
         self.minimal = Some(v);
         self
     }
+    pub fn into_sub(mut self, sub: &'static str) -> Self {
+        self.minimal_sub = Some(sub);
+        self
+    }
 }
 
-#[macro_export]
 macro_rules! ensure {
     ($cond:expr, $key:expr, $($arg:tt)*) => {
         if !($cond) {
@@ -273,6 +278,7 @@ fn known_match<'a>(env: &'a Env, key: &str) -> Option<&'a KnownFinding> {
 }
 
 fn record_violation(env: &Env, report: &mut Report, sub: &str, mut fail: Fail, case: Value, from: Option<&Path>) {
+    let sub = if fail.minimal.is_some() { fail.minimal_sub.unwrap_or(sub) } else { sub };
     let case = fail.minimal.take().unwrap_or(case);
     if let Some(k) = known_match(env, &fail.key) {
         let e = report.known_hits.entry(k.key.clone()).or_insert((k.text.clone(), 0));
